@@ -7,7 +7,9 @@ multi-molecule files with a DIFFERENT molecule in every block) every single stru
 generated (c10_text.enumerate_faults): truncation at every line boundary and at every byte offset of
 the last record, deletion / duplication of every line, deletion / garbling of every structural token,
 an extra token at either end of every fixed-grammar line, every count off by +-1, every record type
-indicator renamed.  Thorough tier: all pairs of faults on the small texts.
+indicator renamed.  Thorough tier: more bundled files and all pairs of faults on the small texts
+(the second fault is enumerated on the text damaged by the first; a first fault that already violates
+is not extended).
 
 Oracle (exactly the property text): the reader raises, or returns a list of molecules which
   (a) are, in order, molecules of the undamaged file (same name, atoms, coordinates, types, charges,
@@ -252,6 +254,7 @@ class Base:
             raise HarnessError(f"annotation of {name} does not reproduce the text")
         self.ref = (T.ref_mol2 if self.fmt == "mol2" else T.ref_xyz)(self.text)
         r = guarded_read(self.fmt, self.text, len(self.doc))
+        self.steps_counted = _Guard.used
         if r[0] != "ok" or not isinstance(r[1], list):
             raise HarnessError(f"the undamaged base text {name} is not readable: {r[:2]}")
         self.orig = [msnap(m) for m in r[1]]
@@ -483,6 +486,7 @@ def run(ctx):
         "a damaged text that the harness's strict reference reader accepts as a well-formed file with other content is not damage (checked for termination only) - except byte-offset truncation, which the property text quantifies over explicitly and which is judged and reported under the signature '<fmt>|truncate|inside-last-value:well-formed-shorter-value-accepted'",
         "'same content' = name, per-atom element / label / type / geometry / formal charge / attributes / coordinates (exact), partial charges, bonds (endpoints, type); 'corresponding molecule' = order-preserving match into the molecules molli reads from the undamaged text (a reader that drops a damaged block and returns the complete others passes)",
         "'its own header' = some block header of the damaged text, matched in order (lenient scan: counts line after @<TRIPOS>MOLECULE / single-integer lines of an xyz text)",
+        "count-1 is not generated for a declared count of 0 (a negative count is not 'off by one'); an inserted extra token is always a non-number, non-keyword",
         "termination: at most 4*lines+64 LineReader steps and %.0f s of CPU per damaged text" % CPU_LIMIT_S,
         "bundled files with sections other than MOLECULE/ATOM/BOND and the two large files (nanotube, pdb_4a05) are not used as base texts",
     ]
@@ -503,6 +507,7 @@ def run(ctx):
             parts += [("pair", b, i, nch) for i in range(nch)]
     # a few real cases
     b0 = Base(bases[0])
+    ctx.note("line_reader_steps_counted_on_first_base_text", b0.steps_counted)  # 0 would mean the step budget is not wired in
     fl = list(T.enumerate_faults(b0.doc, *fills(ctx)))
     for f in (fl[0], fl[len(fl) // 5], fl[2 * len(fl) // 5], fl[3 * len(fl) // 5], fl[4 * len(fl) // 5], fl[-1]):
         ctx.sample({"base": b0.name, "fault": f, "damaged_text": T.doc_text(T.apply_fault(b0.doc, f))})
